@@ -25,7 +25,8 @@ import traceback
 from dataclasses import dataclass, field
 from pathlib import Path
 
-REPO_SRC = "/repo/src"
+# VERIF_REPO_SRC is a development aid (validating seeded changes in a scratch worktree); registered commands never set it
+REPO_SRC = os.environ.get("VERIF_REPO_SRC", "/repo/src")
 PY = "/venv/bin/python"
 VERIF = Path(__file__).resolve().parent.parent
 
